@@ -523,6 +523,50 @@ def h_e_lattice_pair(shape_i: int, torus: bool, mod_i: int, si: int, cmd_i: int)
     return untraced(_lattice_pair, pick(shape_i, 0, 3), pickb(torus), pick(mod_i, 0, 2), pick(si, 0, 2), pick(cmd_i, 0, 1))
 
 
+# ------------------------------------------------------------- degenerate graphs, which only files can name
+SMALL_FILES = ['e0.kthlist', 'e0.dimacs', 'v1.kthlist', 'v2.dimacs', 'g1.gml']
+
+
+def _degenerate_files(fi, gi, ci):
+    """graphs with zero, one or two isolated vertices read from files, alone and as the second graph argument"""
+    from cnfgen.families.graphisomorphism import GraphIsomorphism, GraphAutomorphism
+    from cnfgen.families.subgraph import SubgraphFormula, CliqueFormula
+    from cnfgen.families.coloring import GraphColoringFormula
+    from cnfgen.families.dominatingset import DominatingSet, Tiling
+    from cnfgen.families.counting import PerfectMatchingPrinciple
+    from cnfgen.families.ordering import GraphOrderingPrinciple
+    path = os.path.join(DATA, SMALL_FILES[fi])
+    fmt = path.rsplit('.', 1)[1]
+    H = lambda: GR.readGraph(path, 'simple', fmt)
+    A = SIMPLE[gi]
+    if ci == 0:
+        return both(['iso'] + A + ['-e', path], lambda c: GraphIsomorphism(g('simple', A), H(), formula_class=c))
+    if ci == 1:
+        return both(['iso', path, '-e'] + A, lambda c: GraphIsomorphism(H(), g('simple', A), formula_class=c))
+    if ci == 2:
+        return both(['iso', path, '-e', fmt, path], lambda c: GraphIsomorphism(H(), H(), formula_class=c)) and \
+            both(['iso', path], lambda c: GraphAutomorphism(H(), formula_class=c))
+    if ci == 3:
+        return both(['subgraph', '-G'] + A + ['-H', path], lambda c: SubgraphFormula(g('simple', A), H(), formula_class=c))
+    if ci == 4:
+        return both(['subgraph', '-G', path, '-H'] + A, lambda c: SubgraphFormula(H(), g('simple', A), formula_class=c))
+    ok = both(['kcolor', 2, path], lambda c: GraphColoringFormula(H(), 2, formula_class=c))
+    ok = ok and both(['domset', 1, path], lambda c: DominatingSet(H(), 1, formula_class=c))
+    ok = ok and both(['tiling', fmt, path], lambda c: Tiling(H(), formula_class=c))
+    ok = ok and both(['matching', path], lambda c: PerfectMatchingPrinciple(H(), formula_class=c))
+    ok = ok and both(['kclique', 1, path], lambda c: CliqueFormula(H(), 1, formula_class=c))
+    ok = ok and both(['op', path], lambda c: GraphOrderingPrinciple(H(), formula_class=c))
+    return ok
+
+
+def h_e_degenerate_files(fi: int, gi: int, ci: int) -> bool:
+    """
+    pre: 0 <= fi <= 4 and 0 <= gi <= 5 and 0 <= ci <= 5
+    post: _
+    """
+    return untraced(_degenerate_files, pick(fi, 0, 4), pick(gi, 0, 5), pick(ci, 0, 5))
+
+
 # ------------------------------------------------------------- save, output variants
 class _FS:
     def __init__(self):
